@@ -11,11 +11,12 @@
 (*              WeakOK: nothing invented, nothing changed, only zero-ish values or       *)
 (*              $ref siblings lost                                                       *)
 (*   j2 ja jb ji   every further trip succeeds and reproduces j1 exactly;                 *)
-(*   ju jyu jp jr  (document lines) so does every other reader with a fresh receiver:    *)
+(*   ju jyu jp jr jl  (document lines) so does every other reader with a fresh receiver: *)
 (*              json.Unmarshal / yaml.Unmarshal into an openapi3.T without a loader,     *)
-(*              LoadFromDataWithPath, LoadFromIoReader; UnmarshalJSON of openapi2.T;     *)
+(*              LoadFromDataWithPath, LoadFromIoReader, LoadFromURI (the root read       *)
+(*              through ReadFromURIFunc); UnmarshalJSON of openapi2.T;                   *)
 (*   jm jy jv   and every other writer of the parsed input: the MarshalJSON method, the  *)
-(*              value MarshalYAML hands to a YAML encoder, openapi2.T by value;          *)
+(*              value MarshalYAML hands to a YAML encoder, the T by value;               *)
 (*   jo         and the YAML reader with the option IncludeOrigin on;                    *)
 (*   history lines (line.hist.entry # "fresh", DocModel "Receivers and entry points"):   *)
 (*   prior      the prior documents are the ones the spec names and parse / fail as the  *)
@@ -51,7 +52,7 @@ FirstOK(line) == IF Generated(line) THEN FirstTripOK(line.ver, line.in, line.obs
                  ELSE line.d.src = "yaml" \/ WeakOK(line.obs.j1.v, line.in)
 IsHist(line) == line.hist.entry # "fresh"
 (* the trips the spec demands of a line (a trip the harness did not record is a failed trip) *)
-DocTrips(ver) == IF ver = 3 THEN {"j2", "ja", "jb", "ji", "ju", "jyu", "jp", "jr", "jm", "jy", "jo"}
+DocTrips(ver) == IF ver = 3 THEN {"j2", "ja", "jb", "ji", "ju", "jyu", "jp", "jr", "jl", "jm", "jy", "jv", "jo"}
                  ELSE {"j2", "ja", "ji", "ju", "jv", "jm"}
 Later(line) == IF IsHist(line) THEN {"jh"} ELSE DocTrips(line.ver)
 PriorOK(line) ==
